@@ -452,7 +452,7 @@ def save_cases(ctx, saves):
     return cases
 
 
-def run_save_side(ctx, cases, exe, build):
+def run_save_side(ctx, cases, exe, build, shards=None, samples=None):
     viol = collections.OrderedDict()
     stats = collections.Counter()
 
@@ -461,7 +461,21 @@ def run_save_side(ctx, cases, exe, build):
         if key not in viol or len(json.dumps(payload)) < len(json.dumps(viol[key][1])):
             viol[key] = (what, payload, False)
 
-    res = vlib.run_inkdrive(cases, exe, timeout=300)
+    res = vlib.run_inkdrive(cases, exe, timeout=300, shards=shards)
+    # a process death (stack overflow: not catchable) is attributed to its phase: the case is run again without
+    # the play-on phase; if it then completes, load_state answered Ok and reset + replay can be judged, and the
+    # death happened while the accepted save was played on (same class as accepted_save_then_play_panics)
+    dead = [i for i, (c, r) in enumerate(zip(cases, res))
+            if (r.get("load") == "crash" or "crash" in r) and not c["kind"].startswith("bomb")]
+    if dead:
+        again = vlib.run_inkdrive([dict(cases[i], play=False) for i in dead], exe, timeout=300)
+        for i, r2 in zip(dead, again):
+            if r2.get("load") == "ok" and "crash" not in r2:
+                stats["accepted_save_then_play_crashes(rc=%s)" % res[i].get("crash")] += 1
+                if samples is not None and len(samples) < 3:
+                    samples.append(dict(build=build, kind=cases[i]["kind"], src=cases[i]["src"], save=cases[i]["save"],
+                                        rc=res[i].get("crash")))
+                res[i] = r2
     for c, r in zip(cases, res):
         load = r.get("load")
         stats[f"save[{build}]:" + str(load)] += 1
@@ -601,7 +615,7 @@ def value_stories(ctx, rng, ink_exe, stats):
 def make_value_saves(ctx, rng, stories, exe, stats):
     """saves taken line by line along random choice paths; a few per story, preferring the ones that carry
     the most (values on the evaluation stack, choice threads, temps, changed globals)"""
-    npaths, keep = (3, 5) if ctx.quick() else (10, 16)
+    npaths, keep = (3, 5) if ctx.quick() else (10, 10)
     cases = []
     for si, (src, txt) in enumerate(stories):
         for k in range(npaths):
@@ -647,7 +661,7 @@ def make_value_saves(ctx, rng, stories, exe, stats):
 
 def value_cases(ctx, rng, vsaves):
     cases = []
-    nval, nvar = (44, 10) if ctx.quick() else (120, 30)
+    nval, nvar = (44, 10) if ctx.quick() else (80, 20)
 
     def add(kind, src, story, save):
         cases.append({"id": "x%d" % len(cases), "mode": "save", "story": story, "save": save, "kind": kind, "src": src})
@@ -772,11 +786,15 @@ def value_side(ctx, rng, std_exe, stream_exe, box):
         stories = value_stories(ctx, rng, ink_exe, stats)
         vsaves = make_value_saves(ctx, rng, stories, std_exe, stats)
         vcases = value_cases(ctx, rng, vsaves)
-        mcases = model_sample(ctx, rng, vcases, 50000 if ctx.quick() else 1500000)
+        mcases = model_sample(ctx, rng, vcases, 50000 if ctx.quick() else 600000)
         box.update(stories=len(stories), cases=vcases, model_cases=len(mcases))
         viol = collections.OrderedDict()
         for exe, build in ((std_exe, "std"), (stream_exe, "stream")):
-            v, s_ = run_save_side(ctx, vcases, exe, build)
+            # the play-on phase after an accepted load (statistics only) is the same engine in both builds: run once;
+            # small shards: a shard whose process dies (stack overflow while playing on) is re-run case by case
+            bc = vcases if build == "std" else [dict(c, play=False) for c in vcases]
+            v, s_ = run_save_side(ctx, bc, exe, build, shards=(8 if build == "std" else 2) * vlib.NPROC,
+                                  samples=box.setdefault("play_crashes", []))
             for k, x in v.items():
                 viol.setdefault(k, x)
             stats.update({k.replace("save[", "value_save["): n for k, n in s_.items()})
@@ -842,6 +860,11 @@ def run(ctx):
         ctx.notes.append("Engine/RunSave.vo does not build: " + logm[-300:])
     if vbox.get("model_err"):
         ctx.notes.append("save-loader model not evaluated on part of the sample (ignored): " + vbox["model_err"][-300:])
+    if vbox.get("play_crashes"):
+        ctx.coverage["accepted_save_then_play_crash_samples"] = vbox["play_crashes"]
+        ctx.notes.append("an ACCEPTED value-level save mutant kills the process when the story is played on (load_state "
+                         "answered Ok, reset + replay equal a fresh story; outside C15's statement, recorded): "
+                         + json.dumps(vbox["play_crashes"][0])[:600])
     walls["value_side_thread_total"] = vbox.get("wall")
     walls["value_side_thread_direct"] = vbox.get("wall_direct")
     lap("value_side_wait")
